@@ -69,6 +69,9 @@ SEEDS = [
     [("user", "Start"), ("tick", 3), ("user", "Pause"), ("tick", 1)],
     # alphabet B only: a run with driven outputs has just been paused by the user
     [("user", "Start"), ("set1",), ("valve",), ("tick", 3), ("tick", 2), ("user", "Pause"), ("tick", 1)],
+    # a run with driven outputs is on hold and has then been paused / has been paused and then put on hold
+    [("user", "Start"), ("set1",), ("valve",), ("tick", 3), ("tick", 2), ("user", "Hold"), ("tick", 1), ("user", "Pause"), ("tick", 1)],
+    [("user", "Start"), ("set1",), ("valve",), ("tick", 3), ("tick", 2), ("user", "Pause"), ("tick", 1), ("user", "Hold"), ("tick", 1)],
 ]
 
 
@@ -341,8 +344,8 @@ def explore(item):
 
 DEEPER = [(0, 0), (3, 0)]          # (method, seed) explored one level deeper in the thorough tier
 # quick tier: every seed on the plain method, the other methods on the fresh engine and on the seeds they add something to
-QUICK_COMBOS = [(0, 0), (0, 1), (0, 2), (0, 3), (0, 4), (1, 0), (1, 4), (2, 0), (2, 2), (2, 3), (3, 0), (3, 4), (4, 5), (5, 0), (5, 2), (5, 3)]
-ONLY_WITH = {5: (4,), 6: (), 7: (), 8: ()}            # seed -> methods it makes sense for
+QUICK_COMBOS = [(0, 0), (0, 1), (0, 2), (0, 3), (0, 4), (1, 0), (1, 4), (2, 0), (2, 2), (2, 3), (3, 0), (3, 4), (4, 5), (5, 0), (5, 2), (5, 3), (0, 9), (0, 10)]
+ONLY_WITH = {5: (4,), 6: (), 7: (), 8: (), 9: (0,), 10: (0,)}            # seed -> methods it makes sense for
 
 
 
